@@ -611,6 +611,19 @@ def run_line(line):
         except Exception as ex:  # noqa: BLE001
             return 'REJECT' + ((' ' + str(ex)) if WITH_MESSAGE else '')
         return outcome(lambda: d.at(arg))
+    if cmd == 'DEARLYNUM':
+        x = sx.parse_num(ts[1])
+        e, _ = sx.parse_expr(ts, 2)
+        o = build(e)
+        CATCH.hit = False
+        try:
+            d = Derivative(o, compute_early=True)
+        except (DomainError, CoordinateMissing):
+            return 'ERROR ctor'
+        except OverflowError:
+            return 'PYERR OverflowError'
+        res = outcome(lambda: d.at(x))
+        return ('WARN ' if CATCH.hit else '') + res
     if cmd == 'SYNFWD':
         v = int(ts[1])
         e, _ = sx.parse_expr(ts, 2)
